@@ -12,6 +12,7 @@ IC == INSTANCE IntCodecs
 CD == INSTANCE Codes
 SU == INSTANCE Succinct
 RP == INSTANCE RePairSpec
+PR == INSTANCE Primes
 
 TraceLog == ndJsonDeserialize(IOEnv.TRACE)
 
@@ -109,7 +110,13 @@ TRPReload(ev) ==
                 ELSE <<C("C20", "Re-Pair: grammar changed by save/load")>>)
   /\ Keep(<<ls, dac, codes, bs, sq, rp>>)
 
-SecProp(s) == IF SubSeq(s, 1, 3) \in {"vby", "log", "dac"} THEN "C17"
+\* ---- hash table size (C01/C02/C12 of the hash kinds rest on it, see HashProbe.tla)
+TNP(ev) == /\ Report(ev, IF ev.r = PR!NearestPrime(ev.n) /\ PR!NearestPrimeOK(ev.n) THEN <<>>
+                         ELSE <<C("C01", "nearest_prime(n) is not the next prime (hash table size)")>>)
+           /\ Keep(<<ls, dac, codes, bs, sq, rp>>)
+
+SecProp(s) == IF SubSeq(s, 1, 3) = "has" THEN "C01"
+              ELSE IF SubSeq(s, 1, 3) \in {"vby", "log", "dac"} THEN "C17"
               ELSE IF SubSeq(s, 1, 3) = "cod" THEN "C18"
               ELSE IF SubSeq(s, 1, 3) \in {"bit", "wt-"} THEN "C19" ELSE "C20"
 TFault(ev) == /\ Report(ev, <<C(SecProp(ev.sec), "component call crashed or did not terminate (section " \o ev.sec \o ")")>>)
@@ -141,6 +148,7 @@ TNext ==
             [] e = "SeqBuild" -> TSeqBuild(ev) [] e = "SeqQ" -> TSeqQ(ev)
             [] e \in {"BSLoadNull", "SeqLoadNull"} -> Report(ev, <<C("C19", "load returned NULL for a saved structure")>>) /\ Keep(<<ls, dac, codes, bs, sq, rp>>)
             [] e = "RPIn" -> TRPIn(ev) [] e = "RPOut" -> TRPOut(ev) [] e = "RPReload" -> TRPReload(ev)
+            [] e = "NP" -> TNP(ev)
             [] e \in {"crash", "timeout"} -> TFault(ev)
             [] OTHER -> nbad' = nbad /\ Keep(<<ls, dac, codes, bs, sq, rp>>)
 
